@@ -42,14 +42,16 @@ EXPLANATION = (
     "with the public Bag API, computed, and compared with the plain-Python computation on the concatenated symbolic sequence by z3 equality "
     "per element (the check holds for ALL element values on the path); predicates inside user functions (x % 2 == 0, a >= b, truthiness) and "
     "the comparisons made by max / min / heapq fork in the solver. Operations whose docstrings show ordered results (map, starmap, filter, "
-    "remove, map_partitions, pluck, flatten, accumulate, take, topk, repartition, zip, concat) are compared as ordered lists; product, distinct, "
-    "frequencies, foldby, groupby and join are compared as multisets / dicts (multiset equality of symbolic values is a z3 counting formula). "
-    "When the Python reference raises (max of an empty sequence, reduce of an empty sequence without initial) dask must raise too, and the other "
-    "way round. Reductions are run for split_every in {2, 3, None} (a Python loop inside each path), so every shape of reduction tree over <= 3 "
-    "partitions with empty partitions anywhere is covered. take() is checked against its documented first-npartitions semantics including the "
-    "'insufficient elements' warning. Every path model is replayed natively, and an e2e witness pushes a longer concrete sequence derived from "
-    "the model through db.from_sequence (several partitionings, empty partitions made with filter) for all operations, including the disk "
-    "shuffle and the float statistics, against plain Python.")
+    "remove, map_partitions, pluck, unzip, flatten, accumulate, take, topk, repartition, zip, concat) are compared as ordered lists; product, "
+    "distinct, frequencies, foldby, groupby and join are compared as multisets / dicts (multiset equality of symbolic values is a z3 counting "
+    "formula). When the Python reference raises (max of an empty sequence, reduce of an empty sequence without initial) dask must raise too, and "
+    "the other way round. Reductions (fold, reduction, sum, count, max, min, any, all, topk, frequencies, foldby) are run for every split_every "
+    "of the tier (a Python loop inside each path), so every shape of reduction tree over the bounded number of partitions, with empty partitions "
+    "anywhere, is covered. take() is checked against its documented first-npartitions semantics including the 'insufficient elements' warning; "
+    "repartition(npartitions=m) must have exactly m partitions that are consecutive pieces of the sequence. Every path model is replayed "
+    "natively, and an e2e witness pushes a longer concrete sequence derived from the model through db.from_sequence / from_delayed (several "
+    "partitionings, empty partitions made with filter, schedulers sync and threads) for all operations, including the disk shuffle, "
+    "repartition(partition_size=) and the float statistics, against plain Python.")
 ASSUMPTIONS = [
     "the sequence a bag stands for is the concatenation of its partitions in index order (what compute() returns and what every docstring shows); "
     "operations that keep that order in the reference (map, filter, accumulate, take, repartition, zip, concat, ...) are compared in order",
@@ -59,34 +61,43 @@ ASSUMPTIONS = [
     "zip and multi-bag map / map_partitions: the bags are partitioned identically (documented precondition)",
     "user functions are pure and do not close over symbolic values (they are tokenized by pickling)",
     "exceptions: only 'raises iff the reference raises' is asserted, not the exception type",
+    "topk(key=) is checked with an injective key (ties between different elements with equal keys are unspecified)",
+    "distinct(key=): any one representative per key is accepted",
 ]
 STUBS = ["none: dask.bag runs unpatched; partitions with tuple elements are put into the graph as dask._task_spec.DataNode literals (a plain "
          "legacy list of tuples would be searched for graph keys, which hashes the elements)"]
 ENUM = [
-    "partition structure: number of partitions and the length of every partition (solver-enumerated shape variables)",
-    "split_every in {2, 3, None}, k of take / topk, the target npartitions of repartition, operation variants: Python loops inside each path",
+    "partition structure: number of partitions and the length of every partition (solver-enumerated shape variables); accumulate: with / without initial",
+    "split_every, k of take / topk, npartitions of take, the target npartitions of repartition, operation variants (broadcast / keyword / Item / "
+    "second-bag arguments, pluck keys, flatten length patterns, structure of the second operand of concat / product): Python loops inside each path",
     "hash-based operations concretise what they hash, i.e. those values are ENUMERATED over their range, not solved: distinct and frequencies "
-    "hash the elements themselves (elements in [0, 2]); foldby, groupby, join and distinct(key=) hash only the key x % 2 (two values per element) "
-    "while the elements stay symbolic and unbounded",
-    "accumulate / fold / foldby `initial` values are concrete constants (they are tokenized)",
-    "mean / var / std: var_aggregate / mean_aggregate convert the symbolic sums with float(); the sums are concretised there (elements in [-1, 2]) "
-    "and the float result is compared with the exact rational value (relative tolerance 1e-9)",
+    "hash the elements themselves (elements enumerated up front over [0, 2], plain ints flow through dask); foldby, groupby, join and "
+    "distinct(key=) hash only the key x % 2 (the key function concretises it: two values per element) while the elements stay symbolic and unbounded",
+    "accumulate / fold / foldby `initial` values and the list operand of join(list) are concrete constants (they are tokenized, i.e. pickled)",
+    "mean / var / std: mean_aggregate / var_aggregate convert the symbolic sums with float(); the sums are concretised there (small element "
+    "range) and the float result is compared with the exact rational value (relative tolerance 1e-9)",
 ]
 OUTSIDE = [
     "groupby(shuffle='disk') and repartition(partition_size=) in the solver obligations (partd file I/O, pickling, sizeof): only e2e witnesses",
     "random_sample, to_textfiles, to_avro, to_dataframe, read_text, from_url, from_delayed with non-list values, str accessor",
     "schedulers other than 'sync' (threads only in the e2e witnesses), element types other than ints / tuples of ints / lists of ints",
-    "more than 3 partitions / 4 elements in the quick tier (5 partitions / 5 elements in the thorough tier)",
-    "non-associative binops, initial values that are not neutral",
+    "more partitions / elements than the bounds of the tier; zip / map of differently partitioned bags",
+    "non-associative binops, initial values that are not neutral, topk with a non-injective key",
 ]
 BOUNDS = {
-    "quick": dict(structure="1..3 partitions, 0..4 elements in total, every split of the elements over the partitions (empty partitions allowed)",
-                  forking="operations whose comparisons fork (filter/remove, max/min, any/all, fold with a max binop): same structure; topk: <= 3 elements",
-                  hashing="distinct / frequencies: <= 3 elements in [0, 2]; foldby / groupby / join / distinct(key): <= 3 elements, unbounded, key x % 2",
-                  stats="<= 3 elements in [-1, 2]", second_bag="concat / product / join: second operand with 3 fixed structures of <= 2 symbolic elements"),
-    "thorough": dict(structure="1..5 partitions, 0..5 elements in total", forking="<= 4 partitions, <= 4 elements; topk <= 4 elements",
-                     hashing="<= 4 elements, distinct / frequencies elements in [0, 2]", stats="<= 4 elements in [-2, 2]",
-                     second_bag="as quick"),
+    "quick": dict(structure="1..3 partitions, 0..4 elements in total, every split of the elements over the partitions (empty partitions allowed): map, starmap / "
+                            "pluck / unzip, map_partitions, flatten, accumulate, take, repartition, zip / concat / product",
+                  reductions="fold / reduction / sum / count (no forks): 1..4 partitions, <= 4 elements, split_every in {2, 3, None}",
+                  forking="filter / remove, max / min / fold(max), any / all, topk: 1..3 partitions, <= 3 elements, split_every in {2, None} "
+                          "(on <= 3 partitions split_every=3 builds the same graph as None)",
+                  hashing="distinct / frequencies: <= 3 partitions, <= 3 elements in [0, 2]; foldby / groupby (task shuffle, max_branch in {None, 2}) / join / "
+                          "distinct(key): <= 3 partitions, <= 3 unbounded elements, key x % 2",
+                  stats="mean / var / std (ddof 0, 1): <= 2 partitions, <= 3 elements in [-1, 2]",
+                  second_operand="concat / product: 3 fixed structures of <= 2 symbolic elements; join: [2*w0, 2*w1 + 1] symbolic as bag / Delayed, constants as list"),
+    "thorough": dict(structure="1..5 partitions, 0..5 elements in total", reductions="1..6 partitions, <= 5 elements, split_every in {2, 3, None}",
+                     forking="1..4 partitions, <= 4 elements, split_every in {2, 3, None}",
+                     hashing="1..4 partitions, <= 4 elements (distinct / frequencies elements in [0, 2])", stats="<= 3 partitions, <= 4 elements in [-2, 2]",
+                     second_operand="as quick"),
 }
 
 SE = (2, 3, None)
